@@ -100,6 +100,48 @@ def main():
     if swapped:
         judge("handler_order_swapped", swapped, None, True)
 
+    # ---- the hook log of the repository's own test suite, judged by LifeTrace.tla
+    import stages as S, shutil
+    shutil.copy(os.path.join(C.SPEC, "LifeTrace.tla"), d) if hasattr(C, "SPEC") else shutil.copy("/verif/spec/LifeTrace.tla", d)
+
+    class TE(Exception):
+        pass
+    lctx = dict(ToolError=TE, log=lambda m: None, save_replay=lambda *a: "-")
+    S.stage_repo_tests("C04", "quick", 1, d, binp, dict(props=["C04"]), lctx)
+    life = [json.loads(l) for l in open(os.path.join(d, "life_trace.ndjson"))]
+
+    def judge_life(name, events, expect):
+        p = os.path.join(d, "life_%s.ndjson" % name)
+        with open(p, "w") as f:
+            for e in events:
+                f.write(json.dumps(e) + "\n")
+        _, bads = S.life_check(d, p, "st_" + name, lctx)
+        props = sorted({b[0] for b in bads})
+        ok = (not bads) if expect is None else (expect in props)
+        results.append(("life_" + name, ok, props, 0))
+        print("%-28s %-6s LifeTrace=%s" % ("life_" + name, "ok" if ok else "FAILED", props))
+    judge_life("unmodified", life, None)
+    # an actor that handled messages: claim its on_start failed
+    busy = {(e["pid"], e["id"]) for e in life if e["e"] == "HandlerEnter"}
+    def m_start(e):
+        if e["e"] == "StartExit" and (e["pid"], e["id"]) in busy and e["x"] == 0:
+            x = dict(e); x["x"] = 1; return x
+    judge_life("start_exit_flipped", mutate(life, m_start), "C04")
+    def m_res(e):
+        if e["e"] == "Result" and e["x"] == 0 and e["y"] == 0:
+            x = dict(e); x["y"] = 1; return x
+    judge_life("result_killed_flipped", mutate(life, m_res), "C05")
+    def m_run(e):
+        if e["e"] == "RunEnd" and e["x"] == 1:
+            x = dict(e); x["x"] = 0; return x
+    # (Ok(false) turned into Ok(true) is fine; the reverse must be caught: find an actor whose on_run ran twice)
+    twice = [k for k in {(e["pid"], e["id"]) for e in life} if sum(1 for e in life if (e["pid"], e["id"]) == k and e["e"] == "RunEnd") >= 2]
+    if twice:
+        def m_run2(e):
+            if e["e"] == "RunEnd" and (e["pid"], e["id"]) == twice[0] and e["x"] == 0:
+                x = dict(e); x["x"] = 1; return x
+        judge_life("run_true_to_false", mutate(life, m_run2), "C08")
+
     failed = [r for r in results if not r[1]]
     print("selftest: %d scenarios, %d failed" % (len(results), len(failed)))
     sys.exit(1 if failed else 0)
